@@ -219,6 +219,29 @@ def canonical_emplace(fn):
     return n_rw
 
 
+def canonical_if(fn):
+    """if (!(c)) A else B  is  if (c) B else A: an if-else whose whole condition is a negation is loaded with the
+    negation removed and the branches exchanged (only when both branches exist)."""
+    n_rw = 0
+    for part in (fn.get("inits"), fn.get("body")):
+        if part is None:
+            continue
+        for n in _walk(part):
+            if n.get("k") != "If" or n.get("else") is None or not isinstance(n.get("cond"), dict) or n.get("condvar"):
+                continue
+            c = n["cond"]
+            while isinstance(c, dict) and c.get("k") in ("Paren",) and c.get("c"):
+                c = c["c"][0]
+            if isinstance(c, dict) and c.get("k") == "Un" and c.get("op") == "!" and c.get("c"):
+                inner = c["c"][0]
+                if isinstance(n["else"], dict) and n["else"].get("k") == "If":
+                    continue          # an else-if chain keeps its order
+                n["cond"] = inner
+                n["then"], n["else"] = n["else"], n["then"]
+                n_rw += 1
+    return n_rw
+
+
 def normalise(fn):
     """Rename the locals of `fn` (in place) to the pinned tree's names where the alignment is unambiguous."""
     if os.environ.get("VERIF_REFNAMES_RECORD"):
